@@ -36,6 +36,21 @@ def handle (line : String) : String :=
         match Blowfish.newSaltedCipher key salt with
         | none => "err"
         | some c => runBlocks 8 (Blowfish.encrypt c) (Blowfish.decrypt c) src
+    | "cast5" =>
+      match Cast5.newCipher key with
+      | none => "err"
+      | some c => runBlocks 8 (Cast5.encrypt c) (Cast5.decrypt c) src
+    | "twofish" =>
+      match Twofish.newCipher key with
+      | none => "err"
+      | some c => runBlocks 16 (Twofish.encrypt c) (Twofish.decrypt c) src
+    | "rc2" =>
+      match o.nat? "t1" with
+      | none => "bad-op"
+      | some t1 =>
+        match Rc2.expandKey key t1 with
+        | .panic => "panic"
+        | .ok k => runBlocks 8 (Rc2.encrypt k) (Rc2.decrypt k) src
     | _ => "bad-op"
   | _, _ => "bad-op"
 
